@@ -25,7 +25,7 @@ const NUM_LEAVES: [&str; 18] = [
     "0", "1", "-7", "42", "9223372036854775807", "-9223372036854775808", "9223372036854775808", "18446744073709551615", "123456789012345678901234567890", "1.5", "-0.25", "1e2", "5.0", "1E-3",
     "0.1", "1e400", "-0", "12345678.12345678",
 ];
-const STR_LEAVES: [&str; 14] = ["", "abc", "12", "-3", "1.5", "true", "2021-03-04 05:06:07", "2021-13-04 05:06:07", "1:02:03", "x:y", "é😀", "q\"uote", "back\\slash", "line\nbreak"];
+const STR_LEAVES: [&str; 32] = ["", "abc", "12", "-3", "1.5", "true", "2021-03-04 05:06:07", "2021-13-04 05:06:07", "1:02:03", "x:y", "é😀", "q\"uote", "back\\slash", "line\nbreak", "+42", "007", "-0", ".5", "5.", " 42", "42 ", "2.5\n", " true", "TRUE", "false", "1e3", "0x10", "1_000", "٤٢", "-.5e1", "+1.5", "00:00:01"];
 
 fn gen_leaf(t: &mut Tape) -> J {
     match t.weighted(&[5, 5, 2, 1]) {
